@@ -168,7 +168,8 @@ func handleHelloResume(
 				return 0, &alert.Alert{Level: alert.Fatal, Description: alert.InternalError}, err
 			}
 
-			clientRandom := state.LocalRandom.MarshalFixed()
+			// On the server the client's random is the remote one.
+			clientRandom := state.RemoteRandom.MarshalFixed()
 			cfg.WriteKeyLog(keyLogLabel, clientRandom[:], state.MasterSecret)
 
 			return Flight4b, nil, nil
